@@ -25,7 +25,7 @@ META = {
     "note": "Print Assumptions: closed under the global context (no axioms). Reading (DESIGN 6.00): at most one simulated effect per "
             "time point in a collection, set_simulated_effect replaces (C24_two_simulated_effects_order_matters proves the hypothesis is "
             "needed). Timed containers: a Timing key bound to an empty dict/set (setdefault) is identified with an absent key. "
-            "Observations travel as one base-64 numeral per insertion order (Corr_C24.enc_order; positional notation, leading digit 1). "
+            "Observations travel as a stream of base-64 digits (raised flag + change of each attribute per insertion) packed into 63-bit integers (Corr_C24.enc_case). "
             "The model describes the code after fix commit 2309d85 (rejected increase no longer recorded).",
 }
 
@@ -181,28 +181,67 @@ class Runner:
         return (tags, assigned, incdec, sim)
 
 
-def snap_digits(s):
-    tags, assigned, incdec, sim = s
-    ds = [len(tags)] + list(tags) + [len(assigned)]
-    for f, v in assigned:
-        ds += [f, v]
-    assert all(f < 6 for f in incdec)
-    ds.append(sum(1 << f for f in set(incdec)))
-    ds += [0] if sim is None else [1 + len(sim)] + list(sim)
+ANOMALY = 63   # a change of the bookkeeping that is not "one thing appended/added": reported directly as a failure
+
+
+def _appended(prev, cur):
+    return len(cur) == len(prev) + 1 and tuple(cur[:-1]) == tuple(prev)
+
+
+def d_snap(prev, cur, anomalies):
+    """Corr_C24.d_snap on observed snapshots (tags, assigned, incdec, sim)."""
+    if prev == cur:
+        return [0]
+    ds = [1]
+    (pe, pa, pi, ps), (ce, ca, ci, cs) = prev, cur
+    if pe == ce:
+        ds.append(0)
+    elif _appended(pe, ce):
+        ds.append(1 + ce[-1])
+    else:
+        ds.append(ANOMALY); anomalies.append("effects")
+    if pa == ca:
+        ds.append(0)
+    elif _appended(pa, ca):
+        ds += [1 + ca[-1][0], ca[-1][1]]
+    else:
+        ds.append(ANOMALY); anomalies.append("fluents_assigned")
+    if set(pi) == set(ci):
+        ds.append(0)
+    else:
+        new = [f for f in ci if f not in pi]
+        if len(new) == 1 and set(pi) <= set(ci):
+            ds.append(1 + new[0])
+        else:
+            ds.append(ANOMALY); anomalies.append("fluents_inc_dec")
+    if ps == cs:
+        ds.append(0)
+    elif cs is not None:
+        ds += [1 + len(cs)] + list(cs)
+    else:
+        ds.append(ANOMALY); anomalies.append("simulated_effect")
     return ds
 
 
-def enc_order(steps):
-    """Corr_C24.enc_order: all digits of all steps of one insertion order as one base-64 numeral with a leading 1."""
-    n = 1
-    for raised, snaps, _ in steps:
-        ds = [1 if raised else 0]
-        for s in snaps:
-            ds += snap_digits(s)
-        assert all(0 <= d < BASE for d in ds), ds
-        for d in ds:
+def steps_digits(steps, anomalies):
+    ds = []
+    for raised, cur, prev in steps:
+        ds.append(1 if raised else 0)
+        for p, c in zip(prev, cur):
+            ds += d_snap(p, c, anomalies)
+    return ds
+
+
+def groups(ds):
+    """Corr_C24.groups: 10 digits per 63-bit integer, behind a leading 1."""
+    assert all(0 <= d < BASE for d in ds), ds
+    out = []
+    for i in range(0, len(ds), 10):
+        n = 1
+        for d in ds[i:i + 10]:
             n = (n << 6) | d
-    return n
+        out.append(n)
+    return out
 
 
 def distinct_orders(items):
@@ -215,32 +254,45 @@ def distinct_orders(items):
     return out
 
 
+EMPTY_SNAP = ((), (), (), None)
+
+
 def run_case(rn, pre, t, items, orders, watch):
-    """Returns per order the list of (raised, snapshots) and the encoded numbers."""
-    out = []
+    """Runs every order on a fresh container.  Returns (prefix steps, per order steps); a step is
+    (raised, snapshots after, snapshots before)."""
+    out, pre_steps = [], None
     for o in orders:
         c = rn.new()
-        for (pt, pi) in pre:
-            rn.insert(c, pt, pi)
-        steps = []
         prev = tuple(rn.snap(c, wt) for wt in watch)
+        assert all(p == EMPTY_SNAP for p in prev)
+        ps = []
+        for (pt, pi) in pre:
+            r = rn.insert(c, pt, pi)
+            cur = tuple(rn.snap(c, wt) for wt in watch)
+            ps.append((r, cur, prev))
+            prev = cur
+        if pre_steps is None:
+            pre_steps = ps
+        elif ps != pre_steps:
+            raise AssertionError("the same prefix history behaved differently on two fresh containers")
+        steps = []
         for i in o:
             r = rn.insert(c, t, i)
             cur = tuple(rn.snap(c, wt) for wt in watch)
             steps.append((r, cur, prev))
             prev = cur
         out.append(steps)
-    return out
+    return (pre_steps or []), out
 
 
-def property_verdict(obs, n_sims_ok):
+def property_verdict(obs, pre_steps, n_sims_ok):
     """The property, evaluated on the observations only: (1) every order gives the same 'some insertion raised';
     (2) a raising insertion leaves every watched attribute as it was."""
     problems = []
     verdicts = set(any(r for r, _, _ in steps) for steps in obs)
     if n_sims_ok and len(verdicts) > 1:
         problems.append("order-dependent")
-    for steps in obs:
+    for steps in [pre_steps] + obs:
         for r, cur, prev in steps:
             if r and cur != prev:
                 problems.append("rejected-insertion-changed-bookkeeping")
@@ -328,7 +380,7 @@ def ser_case(w, kind, pre, t, items, orders, watch, obs):
         glist([gnat(i) for i in items]),
         glist([glist([gnat(i) for i in o]) for o in orders]) if orders is not None else "[]",
         glist([gn(x) for x in watch]),
-        glist(["%d%%c24" % enc_order(steps) for steps in obs]))
+        glist([str(g) for g in obs]))
 
 
 def run(ctx):
@@ -337,8 +389,8 @@ def run(ctx):
     ok_proofs = ctx.check_props(extra=["theories/Corr/Corr_C24.v"])
     w = World()
     runners = {k: Runner(w, k) for k in ("CInst", "CDur", "CProb")}
-    preamble = ("Definition U : list item :=\n [ %s ].\nDefinition VT : list value := %s.\n" % (
-        "\n ; ".join(w.gmembers), glist(w.vtable)))
+    preamble = ("From Coq Require Import Uint63.\nDefinition U : list item :=\n [ %s ].\nDefinition VT : list value := %s.\n" % (
+        "\n ; ".join(w.gmembers), glist(w.vtable)) + "Local Open Scope uint63_scope.\n")
 
     cases, raw = [], []
     stats = {"by_container": {}, "by_block": {}, "by_size": {}, "orders_run": 0, "insertions": 0, "rejected_insertions": 0,
@@ -348,15 +400,22 @@ def run(ctx):
     for (kind, pre, t, items, orders, watch, block) in gen_cases(w, ctx.rng, ctx.quick):
         rn = runners[kind]
         all_orders = distinct_orders(items) if orders is None else orders
-        obs = run_case(rn, pre, t, items, all_orders, watch)
+        pre_steps, obs = run_case(rn, pre, t, items, all_orders, watch)
+        anomalies = []
+        digits = steps_digits(pre_steps, anomalies)
+        for steps in obs:
+            digits += steps_digits(steps, anomalies)
         nsim = sum(1 for i in items if w.is_sim(i)) + sum(1 for pt, pi in pre if pt == t and w.is_sim(pi))
-        verdict = property_verdict(obs, nsim <= 1)
+        verdict = property_verdict(obs, pre_steps, nsim <= 1)
         idx = len(cases)
-        cases.append(ser_case(w, kind, pre, t, items, orders, watch, obs))
+        cases.append(ser_case(w, kind, pre, t, items, orders, watch, groups(digits)))
+        if anomalies:
+            verdict = sorted(set(verdict + ["bookkeeping-changed-otherwise-than-by-one-addition:" + a for a in anomalies]))
         raw.append({"container": kind, "pre": pre, "time_point": t, "collection": items,
                     "members": [repr(w.members[i][:2]) if w.is_sim(i) else repr(w.members[i]) for i in items],
                     "orders": "all distinct permutations" if orders is None else orders, "watch": watch, "block": block,
-                    "some_insertion_raised_per_order": [any(r for r, _, _ in steps) for steps in obs]})
+                    "some_insertion_raised_per_order": [any(r for r, _, _ in steps) for steps in obs],
+                    "_args": (kind, pre, t, items, all_orders, watch)})
         if verdict:
             oracle_fail.append((idx, verdict))
         stats["by_container"][kind] = stats["by_container"].get(kind, 0) + 1
@@ -376,7 +435,11 @@ def run(ctx):
     for i in bad:
         c = raw[i]
         verdict = oracle_idx.get(i, [])
-        model = ctx.coq_show("model_obs c", imports=IMPORTS, preamble=preamble + "Definition c := %s.\n" % cases[i])
+        model = ctx.coq_show("(model_pre c, model_obs c)", imports=IMPORTS, preamble=preamble + "Definition c := %s.\n" % cases[i])
+        kind_, pre_, t_, items_, orders_, watch_ = c.pop("_args")
+        ps_, obs_ = run_case(runners[kind_], pre_, t_, items_, orders_, watch_)
+        c["observed_trace (raised, snapshots after = per watched point (effect tags, fluents_assigned, fluents_inc_dec, simulated effect))"] = {
+            "prefix": [(r, cur) for r, cur, _ in ps_], "orders": [[(r, cur) for r, cur, _ in st] for st in obs_][:30]}
         tags = ["c24", c["container"], "block-" + c["block"]] + verdict
         ctx.fail("corr", "insertion orders of a collection: implementation and model disagree on raised flags or bookkeeping "
                  "(corr:C24:add_item/tadd_item)%s" % ("; property fails: " + ",".join(verdict) if verdict else ""),
@@ -387,6 +450,7 @@ def run(ctx):
         if i in bad:
             continue
         c = raw[i]
+        c.pop("_args", None)
         ctx.fail("oracle", "property fails on the implementation although model and implementation agree: %s" % ",".join(verdict),
                  ["c24", c["container"], "block-" + c["block"]] + verdict, {"case": c, "gallina_case": cases[i][:3000]}, True)
     if not ok_proofs:
@@ -398,7 +462,7 @@ def run(ctx):
                 "every case runs all permutations (blocks A, B, C) or the sampled orders (block R), each on a fresh container",
         "exhaustive": True,
         "exhaustive_scope": "blocks A/B(/C): every multiset of the stated size over the stated universe, every insertion order; block R is random",
-        "samples": raw[:1] + raw[len(raw) // 2: len(raw) // 2 + 1] + raw[-1:],
+        "samples": [{k: v for k, v in r.items() if k != "_args"} for r in (raw[40:41] + raw[len(raw) // 2: len(raw) // 2 + 1] + raw[-1:])],
         "distribution": stats,
         "traces_validated_against_impl": stats["orders_run"],
     }, "proof", assumptions=[
